@@ -163,7 +163,7 @@ Next ==
                                      /\ (\E q \in 1..Len(r.rets) : r.rets[q].tag = "ints" /\ r.rets[q].v[1] = ln.r.v[1])
                                     THEN "EqHashConsistent"
                                   ELSE IF ln.op = "derive" THEN "CopyEqHashPickle"
-                                  ELSE IF TypeErr \in ToSet(r.rets) THEN "ImmutableRejects" ELSE "Return",
+                                  ELSE IF (\E q \in 1..Len(r.rets) : r.rets[q].tag = "exc" /\ r.rets[q].v = "TypeError") THEN "ImmutableRejects" ELSE "Return",
                               nm, IF ln.op = "new" THEN ln.kind ELSE knd, AnyEmpty(objs) \/ AnyEmpty(r.os))
                 ELSE IF bad # 0
                   THEN Reject(ln, IF ln.s[bad].n = "eq" THEN "EqHashConsistent"
